@@ -1873,7 +1873,7 @@ theorem Inv.evWDstream {w : World} (h : Inv w) (i k : Nat) : Inv (evWDstream w i
         · exact (h.evDstream i).evWrite i k
 
 /-- events that only use the pool through the managed ops, the stream adapter, handles and `pop`;
-    the raw `BufferPool::take(id)` / `reset(id)` with an arbitrary id are excluded (finding C07a) -/
+    the raw `BufferPool::take(id)` / `reset(id)` with an arbitrary id are excluded (observation C07a) -/
 def Ev.safe : Ev → Bool
   | .take _ => false
   | .reset _ => false
